@@ -16,6 +16,7 @@ import (
 	"sort"
 	"strings"
 	"sync"
+	"sync/atomic"
 	"time"
 
 	"github.com/sheerbytes/sheerbytes/internal/transfer"
@@ -26,8 +27,11 @@ import (
 
 // c17FileSpec is what the scripted receiver does for one file.
 type c17FileSpec struct {
-	In      c17In  `json:"input"`
-	Timing  string `json:"report_timing"` // atonce | ingrace | late | never
+	In c17In `json:"input"`
+	// atonce | ingrace | late | never; resume-timeout family (c17rto.go) also: race-timeout | after-timeout
+	// (a delay relative to Options.ResumeTimeout) and on-frame | on-end | on-done (the report is written when the
+	// scripted receiver has read the first chunk frame / the end-of-file record of the file / has acknowledged it)
+	Timing  string `json:"report_timing"`
 	DelayMs int    `json:"report_delay_ms"`
 	HoldOn  string `json:"hold_on"` // "" | enter | done : verdict held until the k-th chunk entered / finished its frame
 	HoldK   int    `json:"hold_k"`
@@ -45,6 +49,9 @@ type c17Trace struct {
 	JitterUs int           `json:"jitter_us"`
 	Seed     uint64        `json:"seed"`
 	Files    []c17FileSpec `json:"files"`
+	// Options.ResumeTimeout of the sender (0 = wait for the report as long as the transfer lives)
+	ResumeTimeoutMs int `json:"resume_timeout_ms,omitempty"`
+	WatchdogMs      int `json:"watchdog_ms,omitempty"` // 0 = 12 s
 }
 
 type c17Ev struct {
@@ -70,9 +77,11 @@ type c17FileRec struct {
 	hashHit  chan struct{}
 	hashOnce sync.Once
 	heldMs   int64
+	lastNs   atomic.Int64 // time of the last hook event of the file (bounded-progress rule only)
 }
 
 func (r *c17FileRec) add(seq uint64, k byte, idx uint64) {
+	r.lastNs.Store(time.Now().UnixNano())
 	r.mu.Lock()
 	r.ev = append(r.ev, c17Ev{Seq: seq, K: k, Idx: uint32(idx)})
 	r.mu.Unlock()
@@ -106,6 +115,7 @@ func c17InstallHooks() {
 		if r == nil {
 			return
 		}
+		r.lastNs.Store(time.Now().UnixNano())
 		r.mu.Lock()
 		r.ev = append(r.ev, c17Ev{Seq: ev.Seq, K: 'B', Idx: uint32(ev.B)})
 		r.entered++
@@ -132,6 +142,7 @@ func c17InstallHooks() {
 		if r == nil {
 			return
 		}
+		r.lastNs.Store(time.Now().UnixNano())
 		r.mu.Lock()
 		r.ev = append(r.ev, c17Ev{Seq: ev.Seq, K: 'A', Idx: uint32(ev.B)})
 		r.done++
@@ -270,18 +281,26 @@ type c17Wire struct {
 	endSeen   bool
 	recvErr   string
 	dataBytes int64
+	reported  map[uint64]int    // FileResumeInfo records written
+	pend      map[uint64]func() // report waiting for its logical trigger (on-frame | on-end | on-done)
+	trig      map[uint64]bool   // trigger seen before the ResumeRequest was read
+	lastNs    atomic.Int64      // time of the last record / frame read or written (bounded-progress rule only)
 }
 
 type c17TraceResult struct {
-	Trace     c17Trace
-	Keys      []uint64
-	Recs      []*c17FileRec
-	Wire      *c17Wire
-	SendErr   error
-	Completed bool
-	Hung      bool
-	Setup     string
-	DurMs     int64
+	Trace      c17Trace
+	Keys       []uint64
+	Recs       []*c17FileRec
+	Wire       *c17Wire
+	SendErr    error
+	Completed  bool
+	Hung       bool
+	Setup      string
+	DurMs      int64
+	QuietMs    int64  // watchdog only: time since the last hook event / record / frame of this trace
+	NeverBegun []int  // watchdog only: manifest files without a FileBegin when the watchdog fired
+	AllAcked   bool   // watchdog only: the scripted receiver had acknowledged every file that was begun
+	Dump       string // watchdog only: goroutines inside internal/transfer
 }
 
 func c17BitmapBytes(in c17In) []byte {
@@ -354,7 +373,9 @@ func c17RunTrace(e *Env, lp *vk.ListenerPool, tr c17Trace) (res c17TraceResult) 
 	defer pair.Close()
 
 	alg, _ := transfer.VerifC17ParseHashAlg("crc32c")
-	wire := &c17Wire{begins: map[uint64]int{}, ends: map[uint64]int{}, got: map[uint64]map[uint32]int{}, acked: map[uint64]bool{}, reqs: map[uint64]int{}}
+	wire := &c17Wire{begins: map[uint64]int{}, ends: map[uint64]int{}, got: map[uint64]map[uint32]int{}, acked: map[uint64]bool{}, reqs: map[uint64]int{},
+		reported: map[uint64]int{}, pend: map[uint64]func(){}, trig: map[uint64]bool{}}
+	wire.lastNs.Store(time.Now().UnixNano())
 	res.Wire = wire
 	recvDone := make(chan struct{})
 
@@ -378,6 +399,24 @@ func c17RunTrace(e *Env, lp *vk.ListenerPool, tr c17Trace) (res c17TraceResult) 
 			return
 		}
 		var wmu sync.Mutex
+		// fire writes the report of a file whose timing is the logical trigger `which`
+		// (or remembers the trigger when the ResumeRequest has not been read yet)
+		fire := func(key uint64, which string) {
+			rec := specByKey[key]
+			if rec == nil || rec.spec.Timing != which {
+				return
+			}
+			wire.mu.Lock()
+			f := wire.pend[key]
+			delete(wire.pend, key)
+			if f == nil {
+				wire.trig[key] = true
+			}
+			wire.mu.Unlock()
+			if f != nil {
+				f()
+			}
+		}
 		tryAck := func(key uint64) {
 			rec := specByKey[key]
 			if rec == nil {
@@ -402,6 +441,8 @@ func c17RunTrace(e *Env, lp *vk.ListenerPool, tr c17Trace) (res c17TraceResult) 
 				wmu.Lock()
 				_ = transfer.VerifC17WriteFileDone(ctrl, transfer.FileDone{StreamID: key, OK: true})
 				wmu.Unlock()
+				wire.lastNs.Store(time.Now().UnixNano())
+				fire(key, "on-done")
 			}
 		}
 		readData := func(s transfer.Stream) {
@@ -428,6 +469,8 @@ func c17RunTrace(e *Env, lp *vk.ListenerPool, tr c17Trace) (res c17TraceResult) 
 				wire.got[key][idx]++
 				wire.dataBytes += int64(ln)
 				wire.mu.Unlock()
+				wire.lastNs.Store(time.Now().UnixNano())
+				fire(key, "on-frame")
 				tryAck(key)
 			}
 		}
@@ -439,6 +482,7 @@ func c17RunTrace(e *Env, lp *vk.ListenerPool, tr c17Trace) (res c17TraceResult) 
 				}
 				return
 			}
+			wire.lastNs.Store(time.Now().UnixNano())
 			switch typ {
 			case transfer.VerifC17TypeDataStreams:
 				cnt := int(msg.(transfer.DataStreams).Count)
@@ -486,8 +530,26 @@ func c17RunTrace(e *Env, lp *vk.ListenerPool, tr c17Trace) (res c17TraceResult) 
 				}
 				send := func() {
 					wmu.Lock()
-					_ = transfer.VerifC17WriteFileResumeInfo(ctrl, info)
+					werr := transfer.VerifC17WriteFileResumeInfo(ctrl, info)
 					wmu.Unlock()
+					if werr == nil {
+						wire.mu.Lock()
+						wire.reported[key]++
+						wire.mu.Unlock()
+						wire.lastNs.Store(time.Now().UnixNano())
+					}
+				}
+				if t := rec.spec.Timing; t == "on-frame" || t == "on-end" || t == "on-done" {
+					wire.mu.Lock()
+					fired := wire.trig[key]
+					if !fired {
+						wire.pend[key] = send
+					}
+					wire.mu.Unlock()
+					if fired {
+						send()
+					}
+					continue
 				}
 				if rec.spec.DelayMs == 0 {
 					send()
@@ -499,6 +561,7 @@ func c17RunTrace(e *Env, lp *vk.ListenerPool, tr c17Trace) (res c17TraceResult) 
 				wire.mu.Lock()
 				wire.ends[fe.StreamID]++
 				wire.mu.Unlock()
+				fire(fe.StreamID, "on-end")
 				tryAck(fe.StreamID)
 			case transfer.VerifC17TypeEnd:
 				wire.mu.Lock()
@@ -515,6 +578,7 @@ func c17RunTrace(e *Env, lp *vk.ListenerPool, tr c17Trace) (res c17TraceResult) 
 	// ---- real sender
 	streams, cs := tr.Streams, tr.CS
 	opts := transfer.Options{ChunkSize: cs, ParallelFiles: streams, Resume: true, HashAlg: "crc32c"}
+	opts.ResumeTimeout = time.Duration(tr.ResumeTimeoutMs) * time.Millisecond
 	opts.ParamSource = func() transfer.RuntimeParams { return transfer.RuntimeParams{ChunkSize: cs, ParallelFiles: streams} }
 	// The application's stats callback is user code that may take its time (the
 	// real one updates the UI under locks): a seeded delay there widens whatever
@@ -529,7 +593,11 @@ func c17RunTrace(e *Env, lp *vk.ListenerPool, tr c17Trace) (res c17TraceResult) 
 	sendDone := make(chan error, 1)
 	go func() { sendDone <- transfer.SendManifestMultiStream(ctx, pair.Dial, dir, m, opts) }()
 
-	wd := time.NewTimer(12 * time.Second)
+	wdMs := 12000
+	if tr.WatchdogMs > 0 {
+		wdMs = tr.WatchdogMs
+	}
+	wd := time.NewTimer(time.Duration(wdMs) * time.Millisecond)
 	defer wd.Stop()
 	select {
 	case err := <-sendDone:
@@ -540,6 +608,24 @@ func c17RunTrace(e *Env, lp *vk.ListenerPool, tr c17Trace) (res c17TraceResult) 
 		}
 	case <-wd.C:
 		res.Hung = true
+		last := wire.lastNs.Load()
+		for _, r := range res.Recs {
+			if v := r.lastNs.Load(); v > last {
+				last = v
+			}
+		}
+		res.QuietMs = (time.Now().UnixNano() - last) / 1e6
+		res.Dump = c17TransferGoroutines()
+		wire.mu.Lock()
+		res.AllAcked = true
+		for f, k := range res.Keys {
+			if wire.begins[k] == 0 {
+				res.NeverBegun = append(res.NeverBegun, f)
+			} else if !wire.acked[k] {
+				res.AllAcked = false
+			}
+		}
+		wire.mu.Unlock()
 		cancel()
 		_ = pair.Dial.Close()
 		_ = pair.Accept.Close()
@@ -914,9 +1000,12 @@ func c17PartA(e *Env) {
 			res.Wire.mu.Unlock()
 			msg := fmt.Sprintf("trace %d did not complete (hung=%v send_err=%v recv_err=%q) and the oracle found nothing in its hook log; files=%s wire: %s", tr.ID, res.Hung, res.SendErr, recvErr, dbg, ws)
 			if res.Hung {
-				// watchdog: never a verdict of this property
-				e.R.Inconcl(msg)
 				e.R.Count("a_trace_watchdog")
+				// a watchdog alone is never a verdict of this property; files that are never begun although
+				// every begun file was acknowledged are one under the bounded-progress rule (c17rto.go)
+				if !c17NeverBegunVerdict(e, lp, tr, res) {
+					e.R.Inconcl(msg)
+				}
 			} else {
 				// the sender gave up with an error: no exactly-once verdict for the unfinished files
 				e.R.NoVerd()
